@@ -306,6 +306,12 @@ class ExprMixin:
             return self.str_hooks[v.ty.name](self, v)
         if self.lenient:
             return V(T.STR, z3.FreshConst(z3.StringSort(), "msg"))
+        if isinstance(v.ty, (T.Atom, T.ObjT, T.EnumT)):
+            # text of an abstract value: some function of the value (opaque)
+            key = ("strfn", v.ty.name)
+            if key not in self._tycache:
+                self._tycache[key] = z3.Function("str!" + v.ty.name, v.ty.sort(), z3.StringSort())
+            return V(T.STR, self._tycache[key](v.z))
         raise Unsupported(f"str() of {v.ty}", node)
 
     def int_to_str(self, z):
@@ -319,7 +325,12 @@ class ExprMixin:
         if any(v.ty in (T.PY, T.FUN, EXC) for v in vs):
             if all(v.ty is T.PY for v in vs):
                 return V(T.PY, tuple(v.z for v in vs))
-            return V(T.PY, ("pytuple", tuple(vs)))
+            # mixed: lift concrete scalars so the tuple can live in z3 when everything is liftable
+            lifted = [self.lift(v.z) if v.ty is T.PY and isinstance(v.z, (bool, int, str, enum.Enum)) else v
+                      for v in vs]
+            if any(v.ty in (T.PY, T.FUN, EXC, T.NONE) for v in lifted):
+                return V(T.PY, ("pytuple", tuple(vs)))
+            vs = lifted
         tt = T.TupT(*[v.ty for v in vs])
         return V(tt, tt.mk(*[v.z for v in vs]))
 
@@ -1047,7 +1058,8 @@ class ExprMixin:
         s = self._prune_solver
         s.push()
         try:
-            s.set("timeout", timeout_ms)
+            # resource limit instead of a wall-clock timeout: deterministic, and no timer thread
+            s.set("rlimit", 300000)
             s.add(*st.pc)
             s.add(cond)
             self.stats["prune_queries"] += 1
